@@ -302,3 +302,41 @@ Proof.
   rewrite (time_of_round_exact_small bits) by (assumption || lia || nia).
   unfold ideal. nia.
 Qed.
+
+(* round -> time -> round: every instant of a schedulable round's slot converts back to it *)
+Theorem round_of_its_time bits p g r d : bits = 36 ->
+  dom_p p -> dom_g g -> 1 <= r -> r + 1 < two64 ->
+  time_of_round bits p g r <> err_val bits ->
+  time_of_round bits p g (r + 1) <> err_val bits ->
+  0 <= d < p -> dom_t g (time_of_round bits p g r + d) ->
+  current_round (time_of_round bits p g r + d) p g = r.
+Proof.
+  intros Hb Hp Hg Hr Hr2 He He' Hd Ht. symmetry.
+  apply (current_round_unique bits _ p g r Hb Hp Hg Ht Hr Hr2).
+  assert (Hbits : 0 <= bits <= 62) by lia.
+  destruct (time_of_round_no_wrap bits p g r Hbits Hp Hg ltac:(unfold two64 in *; lia)) as [[H0 _]|[_ [E|[E _]]]]; [lia|congruence|].
+  destruct (time_of_round_no_wrap bits p g (r+1) Hbits Hp Hg ltac:(unfold two64 in *; lia)) as [[H0 _]|[_ [E'|[E' _]]]]; [lia|congruence|].
+  rewrite E, E'. unfold ideal. lia.
+Qed.
+
+(* time -> round -> time: the slot of the current round contains the instant and is one period long *)
+Theorem time_of_current_round bits now p g : bits = 36 ->
+  dom_p p -> dom_g g -> dom_t g now ->
+  let c := current_round now p g in
+  time_of_round bits p g c = g + (c - 1) * p /\
+  time_of_round bits p g c <= now < time_of_round bits p g c + p.
+Proof.
+  intros Hb Hp Hg Ht c.
+  destruct (current_round_brackets bits now p g Hb Hp Hg Ht) as [Hc [Hlo Hhi]]. fold c in Hc, Hlo, Hhi.
+  pose proof (current_round_spec now p g Hp Hg Ht) as Hs. fold c in Hs.
+  destruct Ht as [Ht1 Ht2]. pose proof Hp as [Hp1 Hp2].
+  assert (Hq : 0 <= (now - g) / p) by (apply Z.div_pos; lia).
+  assert (Hdm : now - g = p * ((now - g) / p) + (now - g) mod p) by (apply Z.div_mod; lia).
+  assert (Hm : 0 <= (now - g) mod p < p) by (apply Z.mod_pos_bound; lia).
+  assert (Ec : time_of_round bits p g c = ideal p g c)
+    by (apply time_of_round_exact_small; assumption || lia || nia).
+  assert (Ec1 : time_of_round bits p g (c + 1) = ideal p g (c + 1))
+    by (apply time_of_round_exact_small; assumption || lia || nia).
+  rewrite Ec in *. rewrite Ec1 in Hhi.
+  unfold ideal in *. split; [reflexivity|]. split; nia.
+Qed.
